@@ -279,7 +279,7 @@ def case_topo(c, out):
     connected = set()
     silent = set()
     removed_tree_link = [False]
-    st_ = {"quiesced": 0, "tree_before": set()}
+    st_ = {"quiesced": 0, "tree_before": set(), "flood_reports": 0}
 
     def sync_dead():
       net.dead = set(d for d in ports if d not in connected) | silent
@@ -319,6 +319,8 @@ def case_topo(c, out):
       offenders = sorted(d for d in connected
                          if any((((d, p) in nf) != ((d, p) in lp and (d, p) not in tports)) for p in ports[d]))
       on_tree = any(deg[d] for d in offenders)
+      if _S.get("debug"):
+        print("offenders", offenders, "tree", tree, "tports", sorted(tports), "nf", sorted(nf))
       state = "NO_FLOOD %r, adjacency %r" % (sorted(nf), sorted(got))
       for d in sorted(connected):
         bad = [p for p in ports[d] if (d, p) not in lp and (d, p) in nf]
@@ -372,8 +374,9 @@ def case_topo(c, out):
       for clause, msg in G.check_tree(got, tree):
         out.fail(clause, "t=%.3f adjacency %r -> tree %r: %s" % (w.clock.now, sorted(got), tree, msg))
       # what the switches really do
-      fs = flood_state(got, want, tree)
+      fs = flood_state(got, want, tree) if st_["flood_reports"] < 3 else []
       if fs:
+        st_["flood_reports"] += 1
         # diagnosis for the root-cause key: does a recomputation on this (correct) adjacency repair it?
         try:
           ST._update_tree()
@@ -383,11 +386,12 @@ def case_topo(c, out):
           _exc(out, e, "update-tree-raises")
           again = fs
         for (clause, msg, on_tree) in fs[:1]:
+          if again:
+            on_tree = again[0][2]      # who is still wrong after the component recomputed on its own
           out.fail(clause, msg + "; removal events raised while the link was still in adjacency: %d; after a forced "
                    "_update_tree(): %s" % (stale[0], "repaired" if not again else "still wrong"),
                    removal_event_sees_link=bool(stale[0]), after_forced_update="fixed" if not again else "persists",
                    offender_on_tree=on_tree)
-        st_["stop"] = True
       st_["tree_before"] = set()
       for d, es in tree.items():
         for (w2, p) in es:
@@ -667,7 +671,7 @@ def plan(tier):
             Enum("converge-small-graphs", lambda: enum_topo("quick"), shards=16),
             Hyp("probe-random", _probe, examples=400, shards=4),
             Hyp("static-random", lambda: _static(8), examples=2000, shards=4),
-            Hyp("histories", lambda: _topo(5, 8), examples=160, shards=16)]
+            Hyp("histories", lambda: _topo(5, 8), examples=480, shards=16)]
   return [Enum("static-graphs", lambda: enum_static("thorough"), shards=16),
           Enum("probe-boundaries", lambda: enum_probe("thorough"), shards=8),
           Enum("converge-small-graphs", lambda: enum_topo("thorough"), shards=16),
